@@ -119,6 +119,25 @@ pub enum Kill {
 }
 
 #[derive(Serialize, Deserialize, Clone, Debug, PartialEq)]
+pub enum LTrigger {
+    /// when the nth (1-based) occurrence of the named point arrives (before it is answered)
+    AtPoint { name: String, nth: usize },
+    /// after the nth acknowledged OUT instruction of the run
+    AfterOut { n: usize },
+}
+#[derive(Serialize, Deserialize, Clone, Copy, Debug, PartialEq)]
+pub enum LAction {
+    Kill,
+    Stop,
+    Cont,
+}
+#[derive(Serialize, Deserialize, Clone, Debug, PartialEq)]
+pub struct LFault {
+    pub at: LTrigger,
+    pub action: LAction,
+}
+
+#[derive(Serialize, Deserialize, Clone, Debug, PartialEq)]
 pub struct RunScript {
     pub opts: RunOpts,
     #[serde(default)]
@@ -147,6 +166,9 @@ pub struct RunScript {
     /// record filesystem effects of this run into this file
     #[serde(default)]
     pub fs_log: Option<String>,
+    /// faults applied to the `log tail` listener of the world while this run proceeds
+    #[serde(default)]
+    pub lfaults: Vec<LFault>,
 }
 impl RunScript {
     pub fn simple(opts: RunOpts) -> RunScript {
@@ -163,6 +185,7 @@ impl RunScript {
             rand_seed: None,
             fs_crash: None,
             fs_log: None,
+            lfaults: vec![],
         }
     }
     pub fn behav_for(&self, command: &str, target: &str) -> Option<&Behav> {
@@ -218,6 +241,11 @@ pub struct RunTrace {
     /// decision steps that differed from plain plan order
     pub nonplan_decisions: usize,
     pub steps: usize,
+    /// listener faults that actually fired: (action, acknowledged OUT count at that moment)
+    pub lfaults_fired: Vec<(LAction, usize)>,
+    /// exit record of the listener if a fault killed it
+    pub listener_exit: Option<ProcExit>,
+    pub outs_acked: usize,
 }
 impl RunTrace {
     pub fn result_json(&self) -> Option<serde_json::Value> {
@@ -249,6 +277,11 @@ fn split_detail(d: &str) -> (String, String) {
 }
 
 pub fn drive_run(w: &mut World, actor: &str, sc: &RunScript, hang: Duration) -> RunTrace {
+    drive_run_l(w, actor, sc, hang, None)
+}
+
+/// As drive_run, with an optional `log tail` listener process that the script's faults act on.
+pub fn drive_run_l(w: &mut World, actor: &str, sc: &RunScript, hang: Duration, listener: Option<usize>) -> RunTrace {
     let mut tr = RunTrace::default();
     let args = sc.opts.to_args();
     tr.args = args.clone();
@@ -305,6 +338,29 @@ pub fn drive_run(w: &mut World, actor: &str, sc: &RunScript, hang: Duration) -> 
             ctl.kill(proc_id);
             let _ = ctl.wait_exit(proc_id, Duration::from_secs(5));
             break;
+        }};
+    }
+
+    macro_rules! lfault {
+        ($trig:expr) => {{
+            if let Some(l) = listener {
+                for f in &sc.lfaults {
+                    if f.at == $trig {
+                        match f.action {
+                            LAction::Kill => {
+                                if tr.listener_exit.is_none() {
+                                    ctl.kill(l);
+                                    tr.listener_exit = ctl.wait_exit(l, Duration::from_secs(5));
+                                }
+                            }
+                            LAction::Stop => ctl.signal(l, libc::SIGSTOP),
+                            LAction::Cont => ctl.signal(l, libc::SIGCONT),
+                        }
+                        tr.lfaults_fired.push((f.action, tr.outs_acked));
+                        tr.log.push(format!("listener {:?} at {:?}", f.action, f.at));
+                    }
+                }
+            }
         }};
     }
 
@@ -506,6 +562,7 @@ pub fn drive_run(w: &mut World, actor: &str, sc: &RunScript, hang: Duration) -> 
                             }
                             _ => {}
                         }
+                        lfault!(LTrigger::AtPoint { name: p.name.clone(), nth });
                         if let Some(Kill::AtPoint { name, nth: k }) = &sc.kill {
                             if *name == p.name && *k == nth {
                                 tr.log.push(format!("KILL at point {} #{}", name, k));
@@ -553,6 +610,8 @@ pub fn drive_run(w: &mut World, actor: &str, sc: &RunScript, hang: Duration) -> 
                                 let b = unhex(&o.hex);
                                 tr.log.push(format!("out {} {} fd{} {}", tr.helpers[i].command, tr.helpers[i].target, o.fd, show(&b[..b.len().min(24)])));
                                 tr.helpers[i].written[o.fd as usize].extend_from_slice(&b);
+                                tr.outs_acked += 1;
+                                lfault!(LTrigger::AfterOut { n: tr.outs_acked });
                             }
                             Some(Ev::Line { line, .. }) => {
                                 tr.helpers[i].write_errors += 1;
